@@ -17,6 +17,7 @@ package pql
 import (
 	"bytes"
 	"fmt"
+	"math"
 	"sort"
 	"strconv"
 	"strings"
@@ -516,12 +517,18 @@ func (cond *Condition) IntSliceValue() ([]int64, error) {
 
 func formatValue(v interface{}) string {
 	switch v := v.(type) {
+	case nil:
+		return "null"
 	case string:
 		return fmt.Sprintf("%q", v)
+	case float64:
+		return formatFloat(v)
 	case []interface{}:
 		return joinInterfaceSlice(v)
 	case []uint64:
 		return joinUint64Slice(v)
+	case []int64:
+		return joinInt64Slice(v)
 	case time.Time:
 		return fmt.Sprintf("\"%s\"", v.Format(timeFormat))
 	case *Condition:
@@ -543,12 +550,28 @@ func CopyArgs(m map[string]interface{}) map[string]interface{} {
 func joinInterfaceSlice(a []interface{}) string {
 	other := make([]string, len(a))
 	for i := range a {
-		switch v := a[i].(type) {
-		case string:
-			other[i] = fmt.Sprintf("%q", v)
-		default:
-			other[i] = fmt.Sprintf("%v", v)
-		}
+		other[i] = formatValue(a[i])
+	}
+	return "[" + strings.Join(other, ",") + "]"
+}
+
+// formatFloat prints f in the plain decimal notation of the grammar (no exponent),
+// always with a decimal point so that the text parses back as a float.
+func formatFloat(f float64) string {
+	if math.IsInf(f, 0) || math.IsNaN(f) {
+		return fmt.Sprintf("%v", f)
+	}
+	s := strconv.FormatFloat(f, 'f', -1, 64)
+	if !strings.Contains(s, ".") {
+		s += ".0"
+	}
+	return s
+}
+
+func joinInt64Slice(a []int64) string {
+	other := make([]string, len(a))
+	for i := range a {
+		other[i] = strconv.FormatInt(a[i], 10)
 	}
 	return "[" + strings.Join(other, ",") + "]"
 }
